@@ -231,12 +231,8 @@ def oracle(c, out):
     return None
 
 def zone(c):
-    # O1: Python's `$` also matches before a final newline
-    if c['op'] == 'mac' and c['s'].endswith('\n') and ref_mac(c['s'][:-1]): return 'O1'
-    # K11a: a '/' inside an otherwise acceptable scope id (the standard library refuses any '/' in an address)
-    if c['op'] in ('ipv6', 'ip'):
-        a, sep, sc = c['s'].rpartition('%')
-        if sep and '/' in sc and 1 <= len(sc) <= SCOPE_MAX and ref_ipv6_noscope(a): return 'K11a'
+    # no open finding: O1 (trailing newline accepted by is_valid_mac) and K11a ('/' inside a scope id) are repaired in
+    # /repo (c90b795, f40316e) and replayed from findings/C11-O1.json, findings/C11-K11a.json as `fixed:` entries
     return None
 
 def classify(c, out):
